@@ -316,6 +316,11 @@ def apply_op(c, M, cls, name, kk, kk2, log, on_miss):
         for a, b in list(dict.items(src)):
             M.assign(a, b)
         c.update(c)                              # E is self: no-op
+        # a plain mapping EQUAL to the whole cache, listed newest first: contents stay, every key is re-assigned in that order
+        d = dict(reversed(list(M.items)))
+        c.update(d)
+        for a, b in list(d.items()):
+            M.assign(a, b)
     else:
         raise AssertionError(name)
     return None
